@@ -460,8 +460,23 @@ func randTransform3(rng *rand.Rand) (model3d.DistTransform, string) {
 	}
 }
 
-func transformedSubject3(rng *rand.Rand) *subject3 {
+func transformedSubject3(rng *rand.Rand) *subject3 { return transformedSubject3Depth(rng, 0) }
+
+func transformedSubject3Depth(rng *rand.Rand, depth int) *subject3 {
 	var inner *subject3
+	if depth < 2 && rng.Intn(3) == 0 {
+		// a transformed collider wrapped again: transforms stack, innermost applied first
+		inner = transformedSubject3Depth(rng, depth+1)
+		if inner == nil {
+			return nil
+		}
+		t, name := randTransform3(rng)
+		sim, ok := similarityOf(t, inner.ref)
+		if !ok {
+			return nil
+		}
+		return &subject3{api: "model3d.TransformCollider[nested " + name + "]", coll: model3d.TransformCollider(t, inner.coll), ref: sim, far: 300, innerExtra: true}
+	}
 	if rng.Intn(4) == 0 {
 		m := randomRawMesh(rng)
 		inner = meshSubject3(rng, m, 0)
